@@ -1,1 +1,232 @@
-From PLV Require Import Disc.CliffordTModel.
+(* C15: lemmas about the model in Disc/CliffordTModel.v *)
+From Coq Require Import List ZArith Bool Lia ZifyBool QArith Lqa.
+From PLV Require Import Disc.RingsModel Disc.RingsProofs Disc.CliffordTModel.
+Import ListNotations.
+Open Scope Z_scope.
+
+Ltac dd m := destruct m as [[? ? ? ?] [? ? ? ?] [? ? ? ?] [? ? ? ?] ?].
+Ltac ct_unfold := cbv [dm_mul_gate gate_mat dm_matmul_raw dm_dagger dm_scalar dm_transpose rs_candidate dm_map
+                       zo_add zo_sub zo_neg zo_mul zo_conj zo_muli zo_mulw zo_mulw7 zo_int
+                       z0 z1 zm1 zi zmi zw zw7 zo_zero zo_one ct_id dm_id ma mb mc md mk oa ob oc od].
+Ltac ct_ring := ct_unfold; repeat (f_equal; try ring).
+
+(* ------------------------------------------------------------------ the fast product is the product *)
+Lemma dm_mul_gate_ok m g : dm_mul_gate m g = dm_matmul_raw m (gate_mat g).
+Proof. dd m; destruct g; try reflexivity; ct_ring. Qed.
+Lemma word_denote_fast_ok w : word_denote_fast w = word_denote w.
+Proof. induction w as [|g r IH]; [reflexivity|]. cbn [word_denote_fast word_denote]. rewrite dm_mul_gate_ok, IH. reflexivity. Qed.
+
+(* ------------------------------------------------------------------ concatenation *)
+Lemma ct_id_l x : dm_matmul_raw ct_id x = x. Proof. exact (dm_matmul_raw_id_l x). Qed.
+Lemma ct_id_r x : dm_matmul_raw x ct_id = x. Proof. exact (dm_matmul_raw_id_r x). Qed.
+Lemma word_denote_app_lemma w1 w2 :
+  word_denote (w1 ++ w2) = dm_matmul_raw (word_denote w2) (word_denote w1).
+Proof.
+  induction w1 as [|g r IH]; cbn [app word_denote]; [symmetry; apply ct_id_r|].
+  rewrite IH. apply dm_matmul_raw_assoc.
+Qed.
+
+(* ------------------------------------------------------------------ exact unitarity *)
+Definition dm_unitary (m : dm) : Prop :=
+  0 <= mk m /\ dm_matmul_raw (dm_dagger m) m = dm_scalar (zo_int (2 ^ mk m)) (mk m + mk m).
+
+Lemma dm_eq_true x y : dm_eq x y = true -> x = y.
+Proof.
+  destruct x as [a b c d k]; destruct y as [a' b' c' d' k']; unfold dm_eq; cbn [ma mb mc md mk]. intros H.
+  apply andb_true_iff in H; destruct H as [H Hk]. apply andb_true_iff in H; destruct H as [H Hd].
+  apply andb_true_iff in H; destruct H as [H Hc]. apply andb_true_iff in H; destruct H as [Ha Hb].
+  apply zo_eq_true in Ha, Hb, Hc, Hd. apply Z.eqb_eq in Hk. subst. reflexivity.
+Qed.
+Lemma dm_eq_refl x : dm_eq x x = true.
+Proof.
+  destruct x as [a b c d k]; unfold dm_eq; cbn [ma mb mc md mk].
+  rewrite !(proj2 (zo_eq_iff _ _) eq_refl), Z.eqb_refl. reflexivity.
+Qed.
+Lemma dm_unitaryb_spec_lemma m : dm_unitaryb m = true <-> dm_unitary m.
+Proof.
+  unfold dm_unitaryb, dm_unitary. rewrite andb_true_iff, Z.leb_le. split; intros [H1 H2]; split; try exact H1.
+  - apply dm_eq_true; exact H2.
+  - rewrite H2. apply dm_eq_refl.
+Qed.
+
+Lemma dagger_mul a b : dm_dagger (dm_matmul_raw a b) = dm_matmul_raw (dm_dagger b) (dm_dagger a).
+Proof. dd a; dd b; ct_ring. Qed.
+Lemma scalar_commutes s k x y :
+  dm_matmul_raw x (dm_matmul_raw (dm_scalar s k) y) = dm_matmul_raw (dm_scalar s k) (dm_matmul_raw x y).
+Proof. destruct s as [? ? ? ?]; dd x; dd y; ct_ring. Qed.
+Lemma scalar_scalar s k t l : dm_matmul_raw (dm_scalar s k) (dm_scalar t l) = dm_scalar (zo_mul s t) (k + l).
+Proof. destruct s as [? ? ? ?]; destruct t as [? ? ? ?]; ct_ring. Qed.
+Lemma zo_int_mul x y : zo_mul (zo_int x) (zo_int y) = zo_int (x * y).
+Proof. ct_ring. Qed.
+
+Lemma unitary_mul a b : dm_unitary a -> dm_unitary b -> dm_unitary (dm_matmul_raw a b).
+Proof.
+  intros [Ka Ha] [Kb Hb]. split; [cbn [dm_matmul_raw mk]; lia|].
+  rewrite dagger_mul, dm_matmul_raw_assoc, <- (dm_matmul_raw_assoc (dm_dagger a) a b), Ha.
+  rewrite scalar_commutes, Hb, scalar_scalar, zo_int_mul.
+  cbn [dm_matmul_raw mk]. rewrite <- Z.pow_add_r by assumption.
+  unfold dm_scalar. f_equal. ring.
+Qed.
+
+Lemma wpow_unitary j : dm_unitary (DM (zo_wpow j) z0 z0 (zo_wpow j) 0).
+Proof.
+  unfold zo_wpow. split; [cbn [mk]; lia|].
+  destruct (j mod 8) as [|p|p]; try reflexivity;
+    do 4 (try destruct p as [p|p|]); reflexivity.
+Qed.
+Lemma gate_unitary g : in_set g = true -> dm_unitary (gate_mat g).
+Proof.
+  destruct g; intros H; try discriminate H; try (split; [cbn; lia | reflexivity]).
+  apply wpow_unitary.
+Qed.
+Lemma word_unitary_lemma w : gates_in_set w = true -> dm_unitary (word_denote w).
+Proof.
+  induction w as [|g r IH]; intros H.
+  - split; [cbn; lia | reflexivity].
+  - cbn [gates_in_set forallb] in H. apply andb_true_iff in H. destruct H as [Hg Hr].
+    cbn [word_denote]. apply unitary_mul; [apply IH; exact Hr | apply gate_unitary; exact Hg].
+Qed.
+Lemma word_nonunitary_other : dm_unitaryb (word_denote [GOther]) = false.
+Proof. reflexivity. Qed.
+
+Lemma gates_in_set_spec_lemma w : gates_in_set w = true <-> Forall (fun g => g <> GOther) w.
+Proof.
+  unfold gates_in_set. rewrite forallb_forall, Forall_forall. split; intros H g Hg.
+  - intros ->. specialize (H _ Hg). discriminate H.
+  - specialize (H g Hg). destruct g; try reflexivity. exfalso; apply H; reflexivity.
+Qed.
+Definition ten_ops : list gate := [GH; GS; GT; GX; GY; GZ; GSd; GTd; GI; GPh].
+Lemma parse_pos_alphabet : forall n p, (Pos.size_nat p <= n)%nat ->
+  gates_in_set (parse_pos p) = true -> Forall (fun g => In g ten_ops) (parse_pos p).
+Proof.
+  induction n as [|n IH]; intros p Hs; [destruct p; cbn in Hs; lia|].
+  destruct p as [q1|q1|]; [ | |constructor];
+  destruct q1 as [q2|q2|]; try discriminate;
+  destruct q2 as [q3|q3|]; try discriminate;
+  destruct q3 as [q4|q4|]; try discriminate;
+  cbn [parse_pos gates_in_set forallb in_set andb]; try discriminate; intros H;
+  (constructor; [cbn; tauto|]); apply IH; try exact H; cbn [Pos.size_nat] in Hs; lia.
+Qed.
+Lemma parse_alphabet_lemma l : gates_in_set (parse l) = true -> Forall (fun g => In g ten_ops) (parse l).
+Proof.
+  unfold parse, gates_in_set. induction l as [|n r IH]; cbn [flat_map]; [constructor|].
+  rewrite forallb_app, andb_true_iff. intros [H1 H2]. apply Forall_app. split; [|apply IH; exact H2].
+  destruct n as [|p|p]; cbn [parse_chunk] in *; try discriminate.
+  apply (parse_pos_alphabet (Pos.size_nat p)); [lia|exact H1].
+Qed.
+
+(* ------------------------------------------------------------------ Ross-Selinger candidate *)
+Lemma candidate_unitary_lemma u t k : 0 <= k ->
+  zo_add (zo_mul (zo_conj u) u) (zo_mul (zo_conj t) t) = zo_int (2 ^ k) ->
+  dm_unitary (rs_candidate u t k).
+Proof.
+  intros Hk H. split; [exact Hk|].
+  destruct u as [a b c d]; destruct t as [a' b' c' d'].
+  revert H. ct_unfold. generalize (2 ^ k) as N. intros N H. injection H as H1 H2 H3 H4.
+  repeat (f_equal; try lia).
+Qed.
+(* multiplying both u and t by a unit (the code's `scale`, a power of omega) keeps the equation *)
+Lemma candidate_scale u t s : zo_mul (zo_conj s) s = zo_one ->
+  zo_add (zo_mul (zo_conj (zo_mul u s)) (zo_mul u s)) (zo_mul (zo_conj (zo_mul t s)) (zo_mul t s))
+  = zo_add (zo_mul (zo_conj u) u) (zo_mul (zo_conj t) t).
+Proof.
+  intros H. rewrite !zo_conj_mul.
+  replace (zo_mul (zo_mul (zo_conj u) (zo_conj s)) (zo_mul u s)) with (zo_mul (zo_mul (zo_conj u) u) (zo_mul (zo_conj s) s))
+    by (destruct u as [? ? ? ?]; destruct s as [? ? ? ?]; zo_ring).
+  replace (zo_mul (zo_mul (zo_conj t) (zo_conj s)) (zo_mul t s)) with (zo_mul (zo_mul (zo_conj t) t) (zo_mul (zo_conj s) s))
+    by (destruct t as [? ? ? ?]; destruct s as [? ? ? ?]; zo_ring).
+  rewrite H, !zo_mul_1_r. reflexivity.
+Qed.
+
+(* proportionality test: a matrix is proportional to every scalar multiple of itself, and to
+   its own transpose image under the same scalar; used for "equal up to a global phase" *)
+Lemma in_combine_map (f : zo -> zo) l p : In p (combine (map f l) l) -> fst p = f (snd p).
+Proof. induction l as [|x r IH]; cbn; [tauto|]. intros [<-|H]; [reflexivity|auto]. Qed.
+Lemma proportional_scaled s m k : dm_proportional (dm_map (zo_mul s) m k) m = true.
+Proof.
+  unfold dm_proportional, minors_zero.
+  replace (dm_entries (dm_map (zo_mul s) m k)) with (map (zo_mul s) (dm_entries m)) by (destruct m; reflexivity).
+  apply forallb_forall; intros p Hp. apply forallb_forall; intros q Hq.
+  apply in_combine_map in Hp, Hq. rewrite Hp, Hq. apply zo_eq_iff.
+  generalize (snd p) (snd q). intros x y.
+  destruct s as [? ? ? ?]; destruct x as [? ? ? ?]; destruct y as [? ? ? ?]. zo_ring.
+Qed.
+
+(* ------------------------------------------------------------------ real / imaginary parts *)
+(* re2, im2 : Z[omega] -> Z[sqrt2] give twice the real and imaginary part; they satisfy the
+   complex multiplication rule, so x |-> (re2 x + i im2 x)/2 is the ring embedding into C *)
+Lemma re2_mul x y : zs_mulz (re2 (zo_mul x y)) 2 = zs_sub (zs_mul (re2 x) (re2 y)) (zs_mul (im2 x) (im2 y)).
+Proof. destruct x as [a b c d]; destruct y as [a' b' c' d']. unfold re2, im2, zo_mul; cbn [oa ob oc od]. zs_ring. Qed.
+Lemma im2_mul x y : zs_mulz (im2 (zo_mul x y)) 2 = zs_add (zs_mul (re2 x) (im2 y)) (zs_mul (im2 x) (re2 y)).
+Proof. destruct x as [a b c d]; destruct y as [a' b' c' d']. unfold re2, im2, zo_mul; cbn [oa ob oc od]. zs_ring. Qed.
+Lemma re2_conj x : re2 (zo_conj x) = re2 x.
+Proof. destruct x as [a b c d]. unfold re2, zo_conj; cbn [oa ob oc od]. f_equal; ring. Qed.
+Lemma im2_conj x : im2 (zo_conj x) = zs_neg (im2 x).
+Proof. destruct x as [a b c d]. unfold im2, zo_conj, zs_neg; cbn [oa ob oc od sa sb]. f_equal; ring. Qed.
+Lemma re2_omega : re2 zw = ZS 0 1 /\ im2 zw = ZS 0 1 /\ re2 zi = ZS 0 0 /\ im2 zi = ZS 2 0 /\ re2 z1 = ZS 2 0.
+Proof. repeat split. Qed.
+
+(* ------------------------------------------------------------------ interval test *)
+Open Scope Q_scope.
+Lemma qz_nonneg n : (0 <= n)%Z -> 0 <= qz n.
+Proof. intros H. unfold qz. rewrite Zle_Qle in H. exact H. Qed.
+Lemma qz_nonpos n : (n < 0)%Z -> qz n <= 0.
+Proof. intros H. unfold qz. assert (H' : (n <= 0)%Z) by lia. rewrite Zle_Qle in H'. exact H'. Qed.
+
+Definition encloses (e : Q * Q) (x : Q) : Prop := fst e <= x <= snd e.
+Lemma lin_bounds ns : forall enc xs, Forall2 encloses enc xs ->
+  lin_lo ns enc <= lin_val ns xs <= lin_hi ns enc.
+Proof.
+  induction ns as [|n nr IH]; intros enc xs H.
+  - cbn. lra.
+  - destruct H as [|[lo hi] x er xr [Hlo Hhi] Hr]; [cbn; lra|].
+    cbn [fst snd] in Hlo, Hhi. specialize (IH er xr Hr). cbn [lin_lo lin_hi lin_val].
+    destruct (0 <=? n)%Z eqn:E.
+    + assert (Hn := qz_nonneg n ltac:(lia)). nra.
+    + assert (Hn := qz_nonpos n ltac:(lia)). nra.
+Qed.
+Lemma sq_lo_sound lo hi x : lo <= x <= hi -> sq_lo lo hi <= x * x.
+Proof.
+  intros [H1 H2]. unfold sq_lo.
+  destruct (Qle_bool 0 lo) eqn:E1; [apply Qle_bool_iff in E1; nra|].
+  destruct (Qle_bool hi 0) eqn:E2; [apply Qle_bool_iff in E2; nra|]. nra.
+Qed.
+Lemma lin_val_scale ns s : forall xs, lin_val ns (map (fun x => x * s) xs) == lin_val ns xs * s.
+Proof.
+  induction ns as [|n nr IH]; intros xs; [cbn; ring|].
+  destruct xs as [|x xr]; [cbn; ring|]. cbn [map lin_val]. rewrite IH. ring.
+Qed.
+Lemma Forall2_scale enc s : forall xs, Forall2 (fun e x => fst e <= x * s <= snd e) enc xs ->
+  Forall2 encloses enc (map (fun x => x * s) xs).
+Proof. intros xs H. induction H; cbn [map]; constructor; assumption. Qed.
+
+Lemma enclosure_check_sound_lemma m S enc eps2 xs :
+  Forall2 (fun e x => fst e <= x * qz S <= snd e) enc xs ->
+  dist_ok m S enc eps2 = true -> 0 <= 2 - eps2 ->
+  threshold (mk m) eps2 <= lin_val (coefX m) xs * lin_val (coefX m) xs + lin_val (coefY m) xs * lin_val (coefY m) xs.
+Proof.
+  intros Henc Hd He. unfold dist_ok in Hd. apply andb_true_iff in Hd. destruct Hd as [HS Hd].
+  assert (Hs : 0 < qz S) by (unfold qz; change (inject_Z 0 < inject_Z S); rewrite <- Zlt_Qlt; lia).
+  destruct (Qle_bool 0 (2 - eps2)) eqn:E; [|apply Bool.not_true_iff_false in E; exfalso; apply E; apply Qle_bool_iff; exact He].
+  apply Qle_bool_iff in Hd.
+  apply Forall2_scale in Henc.
+  assert (BX := lin_bounds (coefX m) _ _ Henc). assert (BY := lin_bounds (coefY m) _ _ Henc).
+  apply sq_lo_sound in BX. apply sq_lo_sound in BY.
+  rewrite !lin_val_scale in BX, BY.
+  set (X := lin_val (coefX m) xs) in *. set (Y := lin_val (coefY m) xs) in *.
+  set (T := threshold (mk m) eps2) in *.
+  assert (H : T * (qz S * qz S) <= (X * X + Y * Y) * (qz S * qz S)) by lra.
+  assert (Hss : 0 < qz S * qz S) by nra.
+  apply Qmult_lt_0_le_reg_r in H; assumption.
+Qed.
+(* the linear forms are 2 Re and 2 Im of conj(x) * t for one entry *)
+Lemma coef_entry_meaning x tr ti r :
+  lin_val (coefX_entry x) [tr; ti; r * tr; r * ti]
+    == (qz (sa (re2 x)) + qz (sb (re2 x)) * r) * tr + (qz (sa (im2 x)) + qz (sb (im2 x)) * r) * ti /\
+  lin_val (coefY_entry x) [tr; ti; r * tr; r * ti]
+    == (qz (sa (re2 x)) + qz (sb (re2 x)) * r) * ti - (qz (sa (im2 x)) + qz (sb (im2 x)) * r) * tr.
+Proof.
+  destruct x as [a b c d]. unfold coefX_entry, coefY_entry, re2, im2, qz; cbn [oa ob oc od sa sb lin_val].
+  unfold qz. rewrite !inject_Z_opp. split; ring.
+Qed.
+Close Scope Q_scope.
